@@ -1,4 +1,5 @@
 """C01 - generated parsers implement PEG semantics for the core expressions."""
+import gc
 import random
 
 import engine
@@ -60,9 +61,20 @@ def run(chk):
                                     'meaning': 'PegVM!AS/CPS vs always_succeeds()/can_partially_succeed() of the real '
                                                'expression objects; informational'}
     # (A) TLC-enumerated family, text mode
-    cases = pegcheck.collect(chk, 'MC_C01', 'MC_C01_' + chk.tier, timeout_s=3000)
-    chk.notes['tlc_enumerated_grammars'] = len(cases)
-    pegcheck.replay(chk, cases)
+    if chk.tier == 'quick':
+        cases = pegcheck.collect(chk, 'MC_C01', 'MC_C01_quick', timeout_s=3000)
+        chk.notes['tlc_enumerated_grammars'] = len(cases)
+        pegcheck.replay(chk, cases)
+    else:
+        # context by context (7 shards): the whole thorough family with its expectations does not fit into memory at once
+        total = 0
+        for k in range(7):
+            cases = pegcheck.collect(chk, 'MC_C01', 'MC_C01_thorough_s%d' % k, timeout_s=3000, label='MC_C01(shard %d/7)' % k)
+            total += len(cases)
+            pegcheck.replay(chk, cases)
+            del cases
+            gc.collect()
+        chk.notes['tlc_enumerated_grammars'] = total
     # (C2) seeded random deeper shapes, text and bytes mode
     rng = random.Random(chk.seed * 7919 + 1)
     n = 1500 if chk.tier == 'quick' else 20000
